@@ -61,6 +61,12 @@ def unit_main():
             must_wb = smt.satisfiable(hyp + [z3.Not(wb)]) == z3.unsat      # write-back requested on this path
             no_wb = smt.satisfiable(hyp + [wb]) == z3.unsat
             solved_started = 'solve' in names
+            if solved_started:
+                # C05: the verdict is that of ONE solve over all requested forms (Solver.solve called form by form makes verdict and
+                # diagnostics depend on the order of the requests: _solved and the trackers persist between calls)
+                calls = [e for e in ev if e[0] == 'solve']
+                note('C05/the-solver-is-run-once-over-exactly-the-requested-forms', len(calls) == 1 and len(calls[0]) > 1 and calls[0][1] is args.attrs.get('forms'),
+                     f'{len(calls)} call(s) of Solver.solve with {[str(c[1:])[:60] for c in calls]}')
             if must_wb and solved_started:
                 ok = 'write' in names and names.index('write') > names.index('solve') and ev[names.index('write')][1] == 'INPUT_FILE'
                 note('C20/write-back-happens-after-the-solve-on-every-exit' + ('' if p.outcome[0] == 'return' else '/exceptional'), ok, str(names))
